@@ -722,6 +722,69 @@ func genManyTypes(r *rng) *Model {
 	return m
 }
 
+// genManyRestrictions: one or two relations with 40-300 type restrictions (so
+// that a relation / operator node has far more edges than any fixture), among
+// them usersets and public types, next to a tuple to userset whose targets
+// coincide with directly assignable usersets of the same relation.
+func genManyRestrictions(r *rng) *Model {
+	m := &Model{Schema: "1.1"}
+	m.Types = append(m.Types, &Type{Name: "user"})
+	group := &Type{Name: "group", Relations: []*Relation{{Name: "member", Expr: &Expr{Kind: KThis}, Direct: []Ref{{Type: "user"}}}}}
+	m.Types = append(m.Types, group)
+	n := []int{40, 63, 64, 65, 70, 100, 130, 200, 300}[r.intn(9)]
+	var fill []Ref
+	for i := 0; i < n; i++ {
+		t := &Type{Name: fmt.Sprintf("t%03d", i)}
+		if r.chance(20) {
+			t.Relations = append(t.Relations, &Relation{Name: "member", Expr: &Expr{Kind: KThis}, Direct: []Ref{{Type: "user"}}})
+			fill = append(fill, Ref{Type: t.Name, Rel: "member"})
+		} else {
+			fill = append(fill, Ref{Type: t.Name, Wild: r.chance(5)})
+		}
+		m.Types = append(m.Types, t)
+	}
+	overlap := Ref{Type: "group", Rel: "member"}
+	direct := append([]Ref(nil), fill...)
+	switch r.intn(4) {
+	case 0:
+		direct = append([]Ref{overlap}, direct...)
+	case 1:
+		direct = append(direct, overlap)
+	case 2:
+		k := r.intn(len(direct))
+		direct = append(direct[:k:k], append([]Ref{overlap}, direct[k:]...)...)
+	}
+	parents := []Ref{{Type: "group"}}
+	if r.chance(40) {
+		parents = append(parents, Ref{Type: "t001"})
+		if mt := m.typeByName("t001"); len(mt.Relations) == 0 {
+			mt.Relations = append(mt.Relations, &Relation{Name: "member", Expr: &Expr{Kind: KThis}, Direct: []Ref{{Type: "user"}}})
+		}
+	}
+	doc := &Type{Name: "doc"}
+	doc.Relations = append(doc.Relations, &Relation{Name: "parent", Expr: &Expr{Kind: KThis}, Direct: parents})
+	ttu := &Expr{Kind: KTTU, Rel: "member", Tupleset: "parent"}
+	var expr *Expr
+	switch r.intn(4) {
+	case 0:
+		expr = &Expr{Kind: KUnion, Children: []*Expr{{Kind: KThis}, ttu}}
+	case 1:
+		expr = &Expr{Kind: KUnion, Children: []*Expr{{Kind: KThis}, ttu, {Kind: KComputed, Rel: "owner"}}}
+	case 2:
+		expr = &Expr{Kind: KExcl, Children: []*Expr{{Kind: KThis}, ttu}}
+	default:
+		expr = &Expr{Kind: KUnion, Children: []*Expr{{Kind: KThis}, {Kind: KInter, Children: []*Expr{ttu, {Kind: KComputed, Rel: "owner"}}}}}
+	}
+	doc.Relations = append(doc.Relations, &Relation{Name: "owner", Expr: &Expr{Kind: KThis}, Direct: []Ref{{Type: "user"}}})
+	doc.Relations = append(doc.Relations, &Relation{Name: "viewer", Expr: expr, Direct: direct})
+	if r.chance(40) {
+		// a second wide relation, plain
+		doc.Relations = append(doc.Relations, &Relation{Name: "editor", Expr: &Expr{Kind: KThis}, Direct: append([]Ref(nil), fill[:len(fill)/2]...)})
+	}
+	m.Types = append(m.Types, doc)
+	return m
+}
+
 // genOddNames: the separator-collision idea with characters only the JSON /
 // protobuf form can carry in a name (validation allows everything but
 // ':', '#', '@' and whitespace): "a,b" next to "a" and "b", as types, public
